@@ -88,6 +88,28 @@ type netSender struct {
 }
 
 func peerName(id uint64) string { return fmt.Sprintf("signer-%d", id) }
+func peerPort(id uint64) uint32 { return uint32(10000 + id%50000) }
+
+// route finds the instance a message for the given endpoint reaches.  The network delivers to a NAME AND PORT, not to an identifier:
+// an endpoint whose name / port is not the one configured for its identifier reaches whoever listens there (another instance, or
+// nobody) - and is logged as a misdelivery, because every endpoint a process service talks to must come from its configured peers.
+func (c *Cluster) route(from *Instance, ep *core.Endpoint) *Instance {
+	if in := c.Inst[ep.ID]; in != nil && ep.Name == in.Name && ep.Port == peerPort(in.ID) {
+		return in
+	}
+	var reached *Instance
+	for _, in := range c.Inst {
+		if ep.Name == in.Name && ep.Port == peerPort(in.ID) {
+			reached = in
+		}
+	}
+	rid := uint64(0)
+	if reached != nil {
+		rid = reached.ID
+	}
+	c.Log.Emit(Ev{"ev": "Misdelivery", "from": from.ID, "id": ep.ID, "name": ep.Name, "port": ep.Port, "reached": rid})
+	return reached
+}
 
 // NewCluster builds instances with the given ids; every instance has a distributed wallet "DW" and an
 // nd wallet "W1" with one account, and lets client "c1" do everything.
@@ -96,7 +118,7 @@ func NewCluster(ctx context.Context, ids []uint64, log *Log, timeout time.Durati
 	c.commitCond = sync.NewCond(&c.mu)
 	peers := map[uint64]string{}
 	for _, id := range ids {
-		peers[id] = fmt.Sprintf("%s:%d", peerName(id), 10000+int(id%50000))
+		peers[id] = fmt.Sprintf("%s:%d", peerName(id), peerPort(id))
 	}
 	sorted := append([]uint64{}, ids...)
 	sort.Slice(sorted, func(i, j int) bool { return sorted[i] < sorted[j] })
@@ -189,7 +211,7 @@ func (c *Cluster) deliver(to *Instance, what string, fn func() error) (err error
 }
 
 func (s *netSender) Prepare(ctx context.Context, recipient *core.Endpoint, account string, passphrase []byte, threshold uint32, participants []*core.Endpoint) error {
-	to := s.c.Inst[recipient.ID]
+	to := s.c.route(s.from, recipient)
 	if to == nil {
 		return errors.New("no such peer")
 	}
@@ -218,7 +240,7 @@ func (s *netSender) Prepare(ctx context.Context, recipient *core.Endpoint, accou
 }
 
 func (s *netSender) Execute(ctx context.Context, recipient *core.Endpoint, account string) error {
-	to := s.c.Inst[recipient.ID]
+	to := s.c.route(s.from, recipient)
 	if to == nil {
 		return errors.New("no such peer")
 	}
@@ -243,7 +265,7 @@ func (s *netSender) Execute(ctx context.Context, recipient *core.Endpoint, accou
 }
 
 func (s *netSender) Abort(ctx context.Context, recipient *core.Endpoint, account string) error {
-	to := s.c.Inst[recipient.ID]
+	to := s.c.route(s.from, recipient)
 	if to == nil {
 		return errors.New("no such peer")
 	}
@@ -252,7 +274,7 @@ func (s *netSender) Abort(ctx context.Context, recipient *core.Endpoint, account
 }
 
 func (s *netSender) Commit(ctx context.Context, recipient *core.Endpoint, account string, confirmationData []byte) ([]byte, []byte, error) {
-	to := s.c.Inst[recipient.ID]
+	to := s.c.route(s.from, recipient)
 	if to == nil {
 		return nil, nil, errors.New("no such peer")
 	}
@@ -405,7 +427,7 @@ func tamper(kind string, id uint64, secret bls.SecretKey, vVec []bls.PublicKey) 
 }
 
 func (s *netSender) SendContribution(ctx context.Context, recipient *core.Endpoint, account string, distributionSecret bls.SecretKey, verificationVector []bls.PublicKey) (bls.SecretKey, []bls.PublicKey, error) {
-	to := s.c.Inst[recipient.ID]
+	to := s.c.route(s.from, recipient)
 	if to == nil {
 		return bls.SecretKey{}, nil, errors.New("no such peer")
 	}
